@@ -186,3 +186,20 @@ CLAIMS['C04'] = dict(category='proof', ref='5 Core A, 8 C04',
     text='Lean 4 theorems about the code-shaped model of the 14 decoders, for every type number and every byte string (cap = len): decode_total (never a panic / out-of-bounds access), decode_count_le, decode_fields_inside (every returned field is src[off:off+len] with off+len <= n), decode_keeps_packet, decode_accepts_wf (every well-formed MQTT 3.1.1 packet, followed by anything, is accepted with exactly its fields and length); model tied to message/*.go by differential runs under recover (malformed stream, truncation at every offset, exhaustive small inputs) and regenerated facts. The byte count of error returns is checked by the harness only.',
     technique='machine-checked proof in Lean 4 + differential correspondence to the Go code (real code vs code-shaped model vs MQTT 3.1.1 reference codec)',
     note='Trusted: Lean kernel; axioms propext/Classical.choice/Quot.sound only; Go harness + line protocol + fact extractor; Go runtime semantics assumed by the model (see evidence.assumptions)')
+
+CLAIMS['C12'] = dict(category='proof', ref='8 C12', text=_CLIENT_TEXT % (
+    "Theorems (31, all histories / all reachable states): PUBREC answered by exactly PUBREL (C12_pubrec_pubrel); QoS 0 completes in the sending step "
+    "(C12_qos0_completes_at_once); per-queue conservation and exactly-once FIFO completion (C12_queue_conservation, C12_exactly_once_fifo), a terminal ack "
+    "fires exactly the longest terminal prefix, never before a request's own terminal ack, eagerly (C12_completion_timing, C12_completion_no_later, "
+    "C12_terminal_only_by_own_ack, C12_release_eager); identifiers in flight pairwise distinct in every reachable state and non-zero (C12_inflight_ids_distinct, "
+    "C12_identifier_nonzero_iff/_partial); refinement of the reference client event by event on admitted histories (C12_refines_spec_partial/_step) with closed "
+    "counterexamples showing every excluded class is needed (E5 early ack, ping slot, E9, B3, late PUBREC, SUBACK code, auto id). Known findings E5 and the "
+    "single ping slot are replayed on the real code on every run with the interleaving forced through the ack-window hook.") +
+    " PARTIAL: timing ('promptly') is not modelled; the step granularity of a sending call is {write, register} as delimited by the hook.")
+CLAIMS['C20'] = dict(category='proof', ref='8 C20', text=_CLIENT_TEXT % (
+    "Theorems (10): Connect succeeds iff CONNACK code 0, returns the refusal code otherwise, and changes nothing in every non-success case (C20_connect); "
+    "an inbound QoS 2 PUBLISH is not dispatched at PUBLISH time, duplicates are suppressed, it is dispatched once at PUBREL in FIFO order "
+    "(C20_qos2_*); after the SUBACK a message invokes the request's callback exactly once iff a granted filter matches under section 4.7 "
+    "(C20_dispatch_partial, _qos2_partial, C20_dispatch_nonoverlapping with a static non-overlap check; E9 counterexample C20_dispatch_counterexample); after "
+    "the UNSUBACK a callback held only under listed filters is never invoked again (C20_unsubscribe_stops).") +
+    " PARTIAL: 'without leaving goroutines behind' and real sockets/timeouts are runtime facts outside the model (the harness observes Connect results only).")
